@@ -172,7 +172,7 @@ func c07(c *core.Ctx) {
 					key := core.FuncName(fn) + ":make(" + core.ValName(n) + ")"
 					lower := core.GuardedBy(mk, func(f core.Fact) bool {
 						k, isC := core.ConstInt(f.Y)
-						return stripNum(f.X) == n && isC && ((f.Op == token.GEQ && k == 0) || (f.Op == token.GTR && k == -1))
+						return stripNum(f.X) == n && isC && ((f.Op == token.GEQ && k >= 0) || (f.Op == token.GTR && k >= -1))
 					})
 					var bound int64 = -1
 					upper := core.GuardedBy(mk, func(f core.Fact) bool {
